@@ -3,6 +3,7 @@ sequence with recording build/name callbacks; the RNG is the symbolic permutatio
 import itertools
 
 from symx.core import SymInt, all_, any_, eq
+from symx.rng import Tagged
 
 # ---- motif configurations -----------------------------------------------------------------------
 
@@ -266,3 +267,36 @@ def is_vertex(x):
 def edge_list_of(out):
     """(edge_list, topologies, motif_id, joint_degrees) of a LightWeightEdgeList"""
     return out.edge_list, out.topologies, out.motif_id, out.joint_degrees
+
+
+def provenance_ok(r):
+    """every stub object handed to a build callback comes from the shuffled stub list of one of the joint-degree columns
+    that belong to that callback's motif type (identity of the very objects the RNG primitive produced); returns a list of
+    (call index, motif type, columns found) for calls fed from the wrong column.  None if provenance cannot be established
+    (concrete replay: plain ints carry no identity)."""
+    owner = {}
+    K = len(r.spec["sizes"])
+    canon = [sorted(v for v in range(r.N) for _ in range(r.d[v][k])) for k in range(K)]
+    used = set()
+    for k in range(K):
+        for i, rec in enumerate(r.shuffles):
+            if i in used or rec["n"] != len(canon[k]):
+                continue
+            try:
+                same = sorted(int(x) for x in (rec.get("orig") or rec.get("population") or [])) == canon[k]
+            except Exception:  # noqa
+                same = False
+            if same:
+                used.add(i)
+                for x in rec["result"]:
+                    if not isinstance(x, (SymInt, Tagged)):
+                        return None
+                    owner[id(x)] = k
+                break
+    bad = []
+    for ci, c in enumerate(r.calls):
+        cols = {owner.get(id(a)) for a in c["args"]}
+        cols.discard(None)
+        if cols and not cols <= set(r.spec["indices"][c["j"]]):
+            bad.append((ci, c["j"], sorted(cols)))
+    return bad
